@@ -1118,8 +1118,13 @@ class NetworkGraph(AbstractBaseIR):
                     args[w_str] = {'vtype': 'constant', 'dtype': 'float', 'value': weight if ssize > 1 else weight[0]}
 
                 # get final source and target strings
-                s_str_final = _get_indexed_var_str(s_str, sidx, ssize, reduce=m == 1 and tsize > 1 and n == 1,
-                                                   idx_str=sidx_str, arg_dict=args)
+                if ssize == 1 and len(sidx) > 1 and all(int(idx) == 0 for idx in sidx):
+                    # a variable with a single element is a scalar at runtime and cannot be indexed: it is broadcast
+                    # to all of its targets (e.g. a 1-D extrinsic input sent to ten or more vectorized nodes)
+                    s_str_final = s_str
+                else:
+                    s_str_final = _get_indexed_var_str(s_str, sidx, ssize, reduce=m == 1 and tsize > 1 and n == 1,
+                                                       idx_str=sidx_str, arg_dict=args)
                 t_str_final = _get_indexed_var_str(t_str, tidx, tsize, reduce=tsize > 1 or ssize < tsize,
                                                    idx_str=tidx_str, arg_dict=args)
 
